@@ -57,6 +57,13 @@ var atoms = []atom{
 	bigAtom(),
 	longLineAtom(),
 	giantAtom(),
+	// objects that already carry the package labels with other values (a manifest exported from a
+	// cluster where another instance ran; a template stamping them from config): rendering
+	// stamps this package's values over them
+	{"Q", map[string]string{
+		"exported.yaml":       strings.Replace(pkgw.WidgetYAML("Widget", "q-exported", "p2", "1", nil), "metadata:\n", "metadata:\n  labels:\n    package-operator.run/package: other-v1\n    package-operator.run/instance: some-other-instance\n    own: label\n", 1),
+		"stamped.yaml.gotmpl": strings.Replace(pkgw.WidgetYAML("Widget", "q-stamped", "p1", "1", nil), "metadata:\n", "metadata:\n  labels:\n    package-operator.run/instance: 'from-config-{{.config.x}}'\n", 1),
+	}, []doc{{Path: "exported.yaml", Name: "q-exported", Phase: "p2"}, {Path: "stamped.yaml", Name: "q-stamped", Phase: "p1"}}},
 	// a multi-component package (manifest spec.components) rendered as the root package: root
 	// files and folders whose names merely begin with "components" belong to the root, the files
 	// under components/<name>/ do not
@@ -217,6 +224,9 @@ func conservation(p Pkg, r pkgw.RenderResult) []string {
 					out = append(out, fmt.Sprintf("object %s still carries control annotation %s", u.GetName(), k))
 				}
 			}
+			if u.GetName() == "q-exported" && l["own"] != "label" {
+				out = append(out, "object q-exported lost its own label")
+			}
 			if u.GetName() == "x" && u.GetAnnotations()["keep"] != "me" {
 				out = append(out, "object x lost its own annotation")
 			}
@@ -278,7 +288,7 @@ func packages(quick bool) []Pkg {
 		}
 	}
 	rec(0, "")
-	subsets = append(subsets, "B", "BM", "BATX", "D", "DH", "DAM", "DTC", "K", "KA", "G", "GMX", "W", "WAM", "WTN")
+	subsets = append(subsets, "B", "BM", "BATX", "D", "DH", "DAM", "DTC", "K", "KA", "G", "GMX", "W", "WAM", "WTN", "Q", "QAX")
 	if !quick {
 		subsets = append(subsets, ids, "AMTHCL", "MNXZCL", "ATHRNXZ", "B"+ids)
 	}
